@@ -207,7 +207,18 @@ func (b *setBox[T]) refRemove(x T) {
 	}
 }
 
+// Step = Do (the operation on the real object and the reference, return values compared)
+// followed by Content (the cheap observer comparison that runs on every transition).
 func (b *setBox[T]) Step(o Op) *Viol {
+	if v := b.Do(o); v != nil {
+		return v
+	}
+	return b.content()
+}
+
+func (b *setBox[T]) Content() *Viol { return b.content() }
+
+func (b *setBox[T]) Do(o Op) *Viol {
 	switch o.N {
 	case "Add":
 		vs := b.tuple(o.A[0])
@@ -231,7 +242,7 @@ func (b *setBox[T]) Step(o Op) *Viol {
 	default:
 		panic("set op " + o.N)
 	}
-	return b.content()
+	return nil
 }
 
 func (b *setBox[T]) content() *Viol {
